@@ -168,7 +168,9 @@ func (ex *Exec) checkPost(fr *Frame, st *State, vs []*Val, k int, pos string) {
 				continue
 			}
 			c := &SCtx{ex: ex, pkg: gi.Pkg, env: map[string]*Val{}, cur: st, goal: true}
+			ex.expandQ = true
 			cj := c.conjuncts(gi.Clause.Expr)
+			ex.expandQ = false
 			for j, x := range cj {
 				nm := fmt.Sprintf("globalinv[%s]@return[%d]", clauseLabel(gi.Clause, i), k)
 				if len(cj) > 1 {
